@@ -435,7 +435,7 @@ def run(ctx):
             t.failed("initial state differs from the model", operations=ops, keys=list(d.keys()))
             break
         for step in range(rng.randint(1, 8)):
-            op = rng.choice(["set", "set", "del", "get", "first", "last", "before", "after", "sort", "sortkey", "copy", "cycle"])
+            op = rng.choice(["set", "set", "del", "get", "first", "last", "before", "after", "sort", "sortkey", "sorttie", "copy", "cycle"])
             k = rng.choice(KEYS)
             r = rng.choice(KEYS)
             before = snapshot(d)
@@ -492,6 +492,11 @@ def run(ctx):
                     ops.append(["sort_fields", "key=reverse-lower"])
                     model.sort(key=lambda e: [-ord(c) for c in e[0].lower()])
                     d.sort_fields(key=lambda s: [-ord(c) for c in s.lower()])
+                elif op == "sorttie":
+                    # a key function with many ties: sorting is stable (same semantics as sorted())
+                    ops.append(["sort_fields", "key=len"])
+                    model.sort(key=lambda e: len(e[0]))
+                    d.sort_fields(key=len)
                 elif op == "copy":
                     ops.append(["copy"])
                     c = d.copy()
